@@ -200,7 +200,11 @@ func (xd *XDecoded) fill(s *Schema, into *DNode, e *xelem) {
 			xd.problem("name/unknown-element", "element %s is not a schema child of %s", k.name.Local, nodeName(into.S))
 			continue
 		}
-		if want := s.nsOf(sn); k.name.Space != want {
+		want := s.nsOf(sn)
+		// nodes that come from the main module's grouping used by the second module: the library binds them
+		// to the defining module, RFC 7950 to the using module; both are accepted (DESIGN C15/C19 D)
+		ambiguous := s.AugName != "" && sn.Module == "" && k.name.Space == "urn:"+s.AugName
+		if k.name.Space != want && !ambiguous {
 			// aug-mode root namespace: nodes of the main module's grouping carry the main namespace
 			xd.problem("name/namespace", "element %s has namespace %q, expected %q", k.name.Local, k.name.Space, want)
 		}
